@@ -272,7 +272,7 @@ func printDoc(d *ast.QueryDocument) string {
 }
 
 var DecorKinds = []string{"alias", "aliasSib", "aliasParent", "aliasId", "idAliased", "typename", "fragT", "fragN", "fragAbs", "fragAbsTypename", "absTypenameFrag", "id",
-	"incLit", "skipLitFalse", "skipVar", "incVar", "argVar", "argVarNamedId", "argVarDefault", "argVarNull", "varTwice", "dup", "dupFirst", "sameKeyTwice", "splitKey", "splitKeyFrag", "dupSwapLeaf", "dupDropLeaf", "named", "namedTwice", "opName", "rootTypename", "rootTypenameAliased"}
+	"incLit", "skipLitFalse", "skipVar", "incVar", "argVar", "argVarNamedId", "argVarDefault", "argVarNull", "argVarLeaf0", "argVarLeaf1", "argVarLeaf2", "varTwice", "dup", "dupFirst", "sameKeyTwice", "splitKey", "splitKeyFrag", "dupSwapLeaf", "dupDropLeaf", "named", "namedTwice", "opName", "rootTypename", "rootTypenameAliased"}
 
 // Decorate returns all single-decoration variants of q.
 func Decorate(s *ast.Schema, q string) []Case {
@@ -448,6 +448,29 @@ func Decorate(s *ast.Schema, q string) []Case {
 					// the same field again under alias b with the same variable
 					ok = appendSibling(&op.SelectionSet, f, func(c *ast.Field) { c.Alias = "b" })
 				}
+			case "argVarLeaf0", "argVarLeaf1", "argVarLeaf2":
+				// one leaf inside an object / list literal of an argument becomes a variable
+				// (a variable in an input object that is an element of a list, ...)
+				if fd == nil {
+					ok = false
+					break
+				}
+				var leaves []argLeaf
+				for _, a := range f.Arguments {
+					if ad := fd.Arguments.ForName(a.Name); ad != nil && len(a.Value.Children) > 0 {
+						collectArgLeaves(s, ad.Type, a.Value, &leaves)
+					}
+				}
+				li := int(k[len(k)-1] - '0')
+				if li >= len(leaves) {
+					ok = false
+					break
+				}
+				lf := leaves[li]
+				val, _ := lf.val.Value(nil)
+				vars["lv"] = val
+				op.VariableDefinitions = append(op.VariableDefinitions, &ast.VariableDefinition{Variable: "lv", Type: lf.typ})
+				*lf.val = ast.Value{Kind: ast.Variable, Raw: "lv"}
 			case "dup":
 				ok = appendSibling(&op.SelectionSet, f, func(c *ast.Field) { c.Alias = "b" })
 			case "dupFirst":
@@ -520,6 +543,40 @@ func Decorate(s *ast.Schema, q string) []Case {
 		}
 	}
 	return out
+}
+
+type argLeaf struct {
+	val *ast.Value
+	typ *ast.Type
+}
+
+// collectArgLeaves lists the scalar leaves inside an object / list literal with their expected types.
+func collectArgLeaves(s *ast.Schema, t *ast.Type, v *ast.Value, out *[]argLeaf) {
+	if v == nil || t == nil {
+		return
+	}
+	switch v.Kind {
+	case ast.ListValue:
+		if t.Elem == nil {
+			return
+		}
+		for _, c := range v.Children {
+			collectArgLeaves(s, t.Elem, c.Value, out)
+		}
+	case ast.ObjectValue:
+		d := s.Types[t.Name()]
+		if d == nil {
+			return
+		}
+		for _, c := range v.Children {
+			if fd := d.Fields.ForName(c.Name); fd != nil {
+				collectArgLeaves(s, fd.Type, c.Value, out)
+			}
+		}
+	case ast.Variable:
+	default:
+		*out = append(*out, argLeaf{v, t})
+	}
 }
 
 func deepCopyField(f *ast.Field) *ast.Field {
